@@ -13,3 +13,13 @@ chk('C02',
     'Trusted: rule table transcribed from the docs in ref/derive.py; numpy formulas at 1e-9; reading: scatter=False always uses the tof kinematic graph.',
     'explicit enumeration of all coordinate subsets on the real convert(); independent derivability/formula model; differential against transform_coords with the reported graph',
     'DESIGN.md section 6 C02')
+chk('C01',
+    'Full Cartesian grids (magnitudes 1e-9..1e9 x units x precision mode x operand layout) for the 9 elastic kernels, every route pair and round trip, and every origin x node of the conversion graphs; each result compared with a 50-digit evaluation of the definitions (1e-11 double / 1e-5 single), graph wiring compared bitwise with the kernels.',
+    'Trusted: ref/hp.py + ref/kin.py (mpmath, scipp constants); finite grid built from decision points - says nothing about reals outside it; calls containing any float32 operand judged at 1e-5.',
+    'explicit enumeration of configuration grids on the real kernels and graphs; 50-digit reference model',
+    'DESIGN.md section 6 C01')
+chk('C07',
+    'Full unit grid per kernel x dtype grid per argument ({f64,f32,i64}^n, int32 per argument; thorough 4^n) for 23 kernels (TOF, geometry, gravity on both paths, chopper-cascade): physical result vs 50-digit reference after exact unit conversion, documented output unit, pinned dtype contract.',
+    'Trusted: ref/hp.py + ref/kin.py; dtype contract demanded only where the existing tests pin it; single-precision domain predicate excludes inputs whose needed powers leave 1e-30..1e30.',
+    'explicit enumeration of the unit x dtype grid on the real kernels; 50-digit reference model',
+    'DESIGN.md section 6 C07')
